@@ -67,23 +67,51 @@ def child_main(req, wfd):
 
 
 def call(req):
+    import select
     rfd, wfd = os.pipe()
     pid = os.fork()
     if pid == 0:
         try:
             os.close(rfd)
+            os.setsid()  # own process group: unzip workers (joblib/loky grandchildren) can be removed together with the child
             child_main(req, wfd)
         finally:
             os._exit(0)
     os.close(wfd)
+    os.set_blocking(rfd, False)
     chunks = []
+    st = None
+    # read until the child itself has exited (grandchildren may keep the pipe's write end open for minutes)
     while True:
-        b = os.read(rfd, 65536)
-        if not b:
+        r, _, _ = select.select([rfd], [], [], 0.05)
+        if r:
+            try:
+                b = os.read(rfd, 65536)
+            except BlockingIOError:
+                b = None
+            if b:
+                chunks.append(b)
+                continue
+            if b == b"":
+                _, st = os.waitpid(pid, 0)
+                break
+        done, status = os.waitpid(pid, os.WNOHANG)
+        if done:
+            st = status
+            while True:  # drain what is left
+                try:
+                    b = os.read(rfd, 65536)
+                except BlockingIOError:
+                    break
+                if not b:
+                    break
+                chunks.append(b)
             break
-        chunks.append(b)
     os.close(rfd)
-    _, st = os.waitpid(pid, 0)
+    try:
+        os.killpg(pid, signal.SIGKILL)  # leftover unzip workers of this call
+    except (ProcessLookupError, PermissionError):
+        pass
     events, result, err = [], None, None
     for ln in b"".join(chunks).decode(errors="replace").splitlines():
         try:
